@@ -1021,6 +1021,10 @@ def _set_default_options(options, n):
         )
     options.setdefault(Options.NPT.value, DEFAULT_OPTIONS[Options.NPT](n))
     options[Options.NPT.value] = int(options[Options.NPT])
+    if options[Options.NPT] < n + 1:
+        raise ValueError(
+            f"The number of interpolation points must be at least {n + 1}."
+        )
     if Options.MAX_EVAL in options and options[Options.MAX_EVAL] <= 0:
         raise ValueError(
             "The maximum number of function evaluations must be positive."
